@@ -48,6 +48,7 @@ type brokerSetup struct {
 	workers  int
 	parallel bool
 	buf      int
+	capacity int
 	cancel   context.CancelFunc
 }
 
@@ -63,6 +64,8 @@ func makeBroker(w *W) *brokerSetup {
 	if simrt.Choose(2) == 0 {
 		bs.buf = 0
 	}
+	capacity := 1 + simrt.Choose(3) // bounded back-ends: 1..3 (capacity 1 is its own corner: evict == insertion point)
+	bs.capacity = capacity
 	opts := pubsub.BrokerOptions{BufferSize: bs.buf, ParallelDispatch: bs.parallel, WorkerPoolSize: bs.workers}
 	bctx, cancel := context.WithCancel(w.Ctx)
 	bs.cancel = cancel
@@ -74,20 +77,20 @@ func makeBroker(w *W) *brokerSetup {
 	case 2:
 		bs.b = pubsub.NewDequeBroker[int](bctx, pubsub.NewUnlimitedDeque[int](), opts)
 	case 3:
-		q, _ := pubsub.NewQueue[int](pubsub.QueueOptions{HardLimit: 2, SoftQuota: 1})
+		q, _ := pubsub.NewQueue[int](pubsub.QueueOptions{HardLimit: capacity, SoftQuota: 1 + simrt.Choose(capacity)})
 		bs.b = pubsub.NewQueueBroker[int](bctx, q, opts)
 	case 4:
-		dq, _ := pubsub.NewDeque[int](pubsub.DequeOptions{Capacity: 2})
+		dq, _ := pubsub.NewDeque[int](pubsub.DequeOptions{Capacity: capacity})
 		bs.b = pubsub.NewDequeBroker[int](bctx, dq, opts)
 	case 5:
-		bs.b = pubsub.NewLIFOBroker[int](bctx, opts, 2)
+		bs.b = pubsub.NewLIFOBroker[int](bctx, opts, capacity)
 	}
 	bs.lossless = kind <= 2 && bs.buf == 0
 	return bs
 }
 
 func (bs *brokerSetup) String() string {
-	return fmt.Sprintf("%s parallel=%v workers=%d buf=%d lossless=%v", bs.kind, bs.parallel, bs.workers, bs.buf, bs.lossless)
+	return fmt.Sprintf("%s parallel=%v workers=%d buf=%d cap=%d lossless=%v", bs.kind, bs.parallel, bs.workers, bs.buf, bs.capacity, bs.lossless)
 }
 
 // brokerWorkload starts publishers and subscribers; faults selects the C09 fault families.
@@ -417,6 +420,14 @@ func c09Run(w *W) {
 				if !st.done && !st.canceled {
 					w.Violate("stats-stalled", sig("stats-stalled"), "Stats has not returned although the broker is live (%s)", bs)
 					break
+				}
+			}
+			if len(w.Out.Violations) == 0 {
+				// "every message accepted by the distributor is eventually dispatched":
+				// with every dispatch worker idle and every subscriber receiving, the
+				// distributor must be empty.
+				if st := bs.b.Stats(w.Ctx); st.BufferDepth != 0 {
+					w.Violate("backlog-not-dispatched", sig("backlog-not-dispatched"), "at quiescence the broker is live, every subscriber is receiving, no dispatch is in progress, and the distributor still holds %d message(s) (%s)", st.BufferDepth, bs)
 				}
 			}
 			if len(w.Out.Violations) == 0 {
